@@ -359,20 +359,20 @@ pub fn sweep_enc(
     let probe_s = probe_spec();
     // "used" contexts: the same context after it has already encoded related calls
     // (address-list sweeps only; the 128x128 / 256x256 sweeps run on unused contexts)
-    let nused: u64 = if matches!(addrs, Addrs::List(_)) { 2 } else { 1 };
+    let nused: u64 = if matches!(addrs, Addrs::List(_)) { 3 } else { 1 };
     run.sweep_chunked(name, ncalls * na * nspecs * nused, |acc, lo, hi| {
         let probe_o = Owned::new(&probe_s.cfg);
         for i in lo..hi {
             // nothing is shared between cases: every context is rebuilt
             let probe = if prop == "C04" { build(&probe_o, &probe_s.history) } else { probe_o.ctx() };
             let mut ix = Ix(i);
-            let used = ix.take(nused) == 1;
+            let used = ix.take(nused);
             let si = ix.take(nspecs) as usize;
             let (src, dst) = addrs.get(ix.take(na));
             let call = call_at(ix.0);
             let mut spec = enc_specs(src).swap_remove(si);
-            if used {
-                for p in predecessors(&call) {
+            if used > 0 {
+                for p in predecessors(&call, used) {
                     spec.history.push(Event::Encode { call: p, dst: dst ^ 0x15 });
                 }
             }
